@@ -61,6 +61,8 @@ func (r vMetadataResolver) Get(context.Context, map[string]any) (oauth2.ServerMe
 	return r.md, nil
 }
 
+var vC04NativeURL, vC04NativeToken string
+
 // VerifJWTSetup describes the token presented (if any) and the key set of the issuer.
 type VerifJWTSetup struct {
 	Parsable     bool // the bearer value is a well-formed JWS
@@ -105,7 +107,12 @@ func VerifNewJWT(s VerifJWTSetup, fallback bool) (Authenticator, string, func())
 		}
 		return a, "jws.payload.signature", func() {}
 	}
-	// natively: a really signed token and a key-set server
+	// natively: a really signed token and a key-set server (shared by all jwt authenticators of one chain,
+	// like the engine's stand-ins are)
+	if vC04NativeURL != "" {
+		a.r = vMetadataResolver{md: oauth2.ServerMetadata{Issuer: issuer, JWKSEndpoint: &endpoint.Endpoint{URL: vC04NativeURL, Method: "GET"}}}
+		return a, vC04NativeToken, func() {}
+	}
 	signing, public := vC05NativeKey(alg)
 	published := public
 	if !s.SigValid {
@@ -128,10 +135,11 @@ func VerifNewJWT(s VerifJWTSetup, fallback bool) (Authenticator, string, func())
 		srv.Close()
 	}
 	a.r = vMetadataResolver{md: oauth2.ServerMetadata{Issuer: issuer, JWKSEndpoint: &endpoint.Endpoint{URL: url, Method: "GET"}}}
+	vC04NativeURL, vC04NativeToken = url, raw
 	if !s.Parsable {
-		return a, "not-a-jws", srv.Close
+		vC04NativeToken = "not-a-jws"
 	}
-	return a, raw, srv.Close
+	return a, vC04NativeToken, func() { vC04NativeURL = ""; srv.Close() }
 }
 
 // vCommunicationError builds the error the real fetchJWKS returns when the endpoint cannot be reached.
